@@ -20,6 +20,7 @@ EXTENDS CurveGen, Json, Randomization
 CONSTANTS N,        \* control lattice 0..N (curves, chord); start box of Pythagorean polylines
           NC,       \* contours per path: 1..3, or 0 = 1..3 chosen by the scenario vector
           Mode,     \* "curves" (CurveGen templates) | "pyth" (Pythagorean polylines + exact SplitAt) | "chord" (end-point circle arcs)
+                    \* | "overshoot" (collinear quadratics whose control point lies outside the chord)
           Kinds,    \* curves: subset of {"L","Q","C","A"}
           FamSet,   \* curves: usable ellipse families (indices into CurveGen!Fams)
           Num       \* scenarios per run (RandomSubset)
@@ -229,11 +230,26 @@ ChordCtr(rv) ==
         segs == IF rv[7] % 3 = 0 /\ pre # PAdd(a, v) THEN <<arc, Ln(pre)>> ELSE <<arc>>
     IN <<Ctr(a, segs, rv[10] % 3 = 0), ak>>
 
+\* Mode "overshoot": a quadratic Bezier whose control point is collinear with its end points but OUTSIDE the chord (beyond
+\* the end point or before the start point), in an axis or diagonal direction: the curve runs out and back along the line.
+\* The builder keeps such a quadratic (it is not a line); its length is bracketed like every quadratic (QuadBr).
+OvCtr(rv) ==
+    LET dirs == << <<1, 0>>, <<0, 1>>, <<-1, 0>>, <<0, -1>>, <<1, 1>>, <<-1, 1>>, <<1, -1>>, <<-1, -1>> >>
+        d == dirs[(rv[1] % 8) + 1]
+        s == <<6, 6>>
+        m == 1 + (rv[2] % 3)
+        k == IF rv[3] % 2 = 0 THEN m + 1 + (rv[4] % 3) ELSE -(1 + (rv[4] % 3))
+        p1 == PAdd(s, PMul(k, d)) p2 == PAdd(s, PMul(m, d))
+        v == <<rv[5] % 13, rv[6] % 13>>
+        segs == IF rv[7] % 2 = 0 /\ v # p2 THEN <<Qd(p1, p2), Ln(v)>> ELSE <<Qd(p1, p2)>>
+    IN Ctr(s, segs, rv[8] % 3 = 0)
+
 NCof(rv) == IF NC = 0 THEN 1 + (rv[23] % 3) ELSE NC
 OneCtr(rv, first) == CASE Mode = "pyth" -> PythCtr(rv)
                        [] Mode = "curves" -> Clean(DecodeCtr(rv, N, IF first THEN Kinds ELSE Kinds \cup {"L"}, FamSet))
                        [] Mode = "chord" -> ChordCtr(rv)[1]
-MkPath(a, b, c) == LET n == IF Mode = "chord" THEN 1 ELSE NCof(a) IN
+                       [] Mode = "overshoot" -> OvCtr(rv)
+MkPath(a, b, c) == LET n == IF Mode \in {"chord", "overshoot"} THEN 1 ELSE NCof(a) IN
                    [j \in 1..n |-> OneCtr(IF j = 1 THEN a ELSE IF j = 2 THEN b ELSE c, j = 1)]
 
 \* ---- SplitAt on Pythagorean polylines: cut positions in half units -------------------------------------------------------
@@ -285,7 +301,7 @@ vars == <<scn, reg, nrev, done>>
 
 AkOf(a) == IF Mode = "chord" THEN ChordCtr(a)[2] ELSE 0
 MkScn(s) == [seed |-> s, path |-> MkPath(Vec(s, 0), Vec(s, 1), Vec(s, 2)), ak |-> AkOf(Vec(s, 0)), rw |-> Vec(s, 3)]
-ScnOK(s) == IF Mode = "chord" THEN \A j \in 1..Len(s.path) : Len(s.path[j].segs) > 0 ELSE PathOK(s.path)
+ScnOK(s) == IF Mode = "overshoot" THEN TRUE ELSE IF Mode = "chord" THEN \A j \in 1..Len(s.path) : Len(s.path[j].segs) > 0 ELSE PathOK(s.path)
 
 Scenario ==
     LET p == scn.path ak == scn.ak r == RevPath(p)
